@@ -355,8 +355,8 @@ func (pc *packetConn) Read(b []byte) (n int, err error) {
 	// Although Close() also does this, we inform the server loop early about
 	// the closure to ensure that if any new packets are received from this
 	// connection in the meantime, a new handler will be started.
-	pc.closeCh <- pc
 	verifHook("u.idle", pc)
+	pc.closeCh <- pc
 	// Returning EOF here ensures that io.Copy() waiting on the downstream for
 	// reads will terminate.
 	return 0, io.EOF
@@ -384,8 +384,8 @@ func (pc *packetConn) Close() error {
 	}
 	// We may have already done this earlier in Read(), but just in case
 	// Read() wasn't being called, (re-)notify server loop we're closed.
-	pc.closeCh <- pc
 	verifHook("u.close", pc)
+	pc.closeCh <- pc
 	// We don't call net.PacketConn.Close() here as we would stop the UDP
 	// server.
 	return nil
